@@ -243,12 +243,26 @@ def gen_fit(rng, models=MODELS, small_noise=False):
     return spec
 
 
-def gen_plotfit(rng):
-    """Plot.fit: a polynomial-type fit of the last data set / histogram added so far"""
+def gen_plotfit(rng, target=None):
+    """Plot.fit(model, **kw): a polynomial-type fit of the last data set / histogram added so far, with and without
+    xrange / parguess / parnames, the model given positionally or as model=..."""
     model = rng.choice(["linear", "quadratic", "polynomial"])
-    s = {"kind": "plotfit", "model": model, "label": rng.choice(LABELS)}
+    s = {"kind": "plotfit", "model": model, "label": rng.choice(LABELS), "xrange": None,
+         "spelling": rng.choice(["positional", "positional", "keyword"])}
     if model == "polynomial":
         s["degrees"] = rng.choice([1, 3])
+    npar = {"linear": 2, "quadratic": 3}.get(model, s.get("degrees", 3) + 1)
+    if rng.random() < 0.3:
+        s["parguess"] = [dyad(rng, -2, 2) for _ in range(npar)]
+    if rng.random() < 0.3:
+        s["parnames"] = ["p{}".format(k) for k in range(npar)]
+    if target is not None and target["kind"] == "data" and rng.random() < 0.5:
+        xs = sorted(set(target["x"]))
+        need = npar + 2
+        if len(xs) > need:
+            i = rng.randint(0, len(xs) - need - 1)
+            j = rng.randint(i + need, len(xs))
+            s["xrange"] = [xs[i], xs[j] if j < len(xs) else xs[-1] + 0.5]
     return s
 
 
@@ -326,7 +340,7 @@ def gen_script(rng, kind=None):
             objs.insert(0, dict(objs[0]["data"], label=rng.choice(LABELS)))
         if rng.random() < 0.35:
             objs.append(gen_data(rng, fitable=True))
-            objs.append(gen_plotfit(rng))
+            objs.append(gen_plotfit(rng, objs[-1]))
     elif kind == "hist":
         objs.append(gen_hist(rng))
         for _ in range(rng.randint(0, 2)):
@@ -408,7 +422,7 @@ def vary(rng, script, allow_scale=True):
         elif o["kind"] == "hist":
             if rng.random() < 0.3:
                 o["numtype"] = rng.choice(["int", "ndarray", "npint", "float32"])
-        elif o["kind"] == "fit":
+        elif o["kind"] in ("fit", "plotfit"):
             if rng.random() < 0.3:
                 o["preread"] = True
     if objs and rng.random() < 0.15:                  # equal values (and names, labels) in DISTINCT objects
@@ -466,6 +480,8 @@ def apply_scale(script, S):
         elif o["kind"] == "fit":
             sdata(o["data"])
             o["xrange"] = sc(o["xrange"])
+        elif o["kind"] == "plotfit":
+            o["xrange"] = sc(o.get("xrange"))
         elif o["kind"] == "hist":
             o["samples"] = sc(o["samples"])
             o["range"] = sc(o["range"])
@@ -806,7 +822,14 @@ def add_object(p, spec, handles, shared=None):
             kw["degrees"] = spec["degrees"]
         if spec["label"] is not None:
             kw["label"] = spec["label"]
-        r = p.fit(spec["model"], **kw)
+        for k in ("parguess", "parnames"):
+            if spec.get(k) is not None:
+                kw[k] = list(spec[k])
+        if spec.get("xrange") is not None:
+            kw["xrange"] = tuple(spec["xrange"])
+        r = p.fit(model=spec["model"], **kw) if spec.get("spelling") == "keyword" else p.fit(spec["model"], **kw)
+        if spec.get("preread"):
+            pre_read(r)
         return {"fit": r, "dataset": r.dataset}
     if kind == "hist":
         kw = {}
@@ -1204,11 +1227,12 @@ def target_of(specs, i, aux):
         t = specs[j]
         if t["kind"] == "data":
             n = len(t["x"])
-            return [float(v) for v in t["x"]], [float(v) for v in t["y"]], err_list(t["xerr"], n), err_list(t["yerr"], n), None, t
+            return [float(v) for v in t["x"]], [float(v) for v in t["y"]], err_list(t["xerr"], n), err_list(t["yerr"], n), \
+                spec.get("xrange"), t
         if t["kind"] == "hist":
             counts, edges, _ = exp_hist(t)
             xs = [float((edges[k] + edges[k + 1]) / 2) for k in range(len(counts))]
-            return xs, [float(c) for c in counts], [0.0] * len(xs), [0.0] * len(xs), None, None
+            return xs, [float(c) for c in counts], [0.0] * len(xs), [0.0] * len(xs), spec.get("xrange"), None
     return None
 
 
@@ -1311,6 +1335,9 @@ def oracle(script, order, run):
                     return "{}: fit curve drawn from {} to {} ({} points), expected 100 points from {} to {}".format(
                         where, o["x"][0] if o["x"] else None, o["x"][-1] if o["x"] else None, len(o["x"]), float(lo), float(hi))
                 ref = a["fitfn_at_curve"]
+                why = restricted_fit_check(where, s, tx, ty, tye, lo, hi, xr, o["x"], ref)
+                if why:
+                    return why
                 for k in range(100):
                     if eb:
                         sigma = (o["upper"][k] - o["lower"][k]) / 2
@@ -1391,6 +1418,34 @@ def oracle(script, order, run):
                 return "legend {!r}, expected {!r}".format(fig["legend"], want)
         elif fig["legend"] is not None:
             return "a legend is drawn although it is switched off"
+    return None
+
+
+def restricted_fit_check(where, s, tx, ty, tye, lo, hi, xr, curve_x, ref):
+    """polynomial-type models: the fit function on the plot is the least-squares polynomial of the points with
+    low <= x < high (all points when no range was given), recomputed here with numpy.polyfit"""
+    import numpy as np
+    deg = {"linear": 1, "quadratic": 2, "polynomial": s.get("degrees", 3)}.get(s["model"])
+    if deg is None:
+        return None
+    idx = [k for k in range(len(tx)) if xr is None or (xr[0] <= tx[k] < xr[1])]
+    if len(idx) <= deg + 1:
+        return None
+    w = None
+    if any(tye[k] > 0 for k in idx):
+        if any(tye[k] <= 0 for k in idx):
+            return None
+        w = [1 / tye[k] for k in idx]
+    with warnings.catch_warnings():
+        warnings.simplefilter("ignore")
+        coef = np.polyfit([tx[k] for k in idx], [ty[k] for k in idx], deg, w=w)
+    mine = np.polyval(coef, np.asarray(curve_x, dtype=float))
+    big = max(maxabs(mine), maxabs(ty))
+    for k in range(len(curve_x)):
+        if abs(mine[k] - ref[k]) > 1e-6 * big + 1e-9 * _SC:
+            return "{}: fit_function({}) = {} but the least-squares {} of the {} points{} gives {}".format(
+                where, curve_x[k], ref[k], s["model"], len(idx),
+                " with {} <= x < {}".format(xr[0], xr[1]) if xr is not None else "", float(mine[k]))
     return None
 
 
